@@ -10,6 +10,9 @@ import PsutilModel.Props.C01
 #print axioms Psutil.C01.C01_recycled_raises_NSP
 #print axioms Psutil.C01.C01_live_signal_delivered
 #print axioms Psutil.C01.C01_live_setter_applied
+#print axioms Psutil.C01.C01_outcome_truthful
 #print axioms Psutil.C01.C01_gone_counterexample
 #print axioms Psutil.C01.C01_gone_counterexample_returns
 #print axioms Psutil.C01.C01_bootrewrite_counterexample
+#print axioms Psutil.C01.C01_unknown_start_counterexample
+#print axioms Psutil.C01.C01_known_start_no_wrong_owner
